@@ -288,3 +288,30 @@ def _getdata(U):
         t2.self_to_grid()
         U.ensure("self_to_grid = to_grid(find_grid, order 'C') taken over in place", seen == [("FOUND", "C")] and t2.grid == "G" and t2.kpoints == "K" and t2.marker == 1)
     U.run(body, check_feasible=False)
+
+
+# ------------------------------------------------------------------ the C-order slot formula, all grid sizes (unbounded, non-linear integer arithmetic)
+@unit("C30", "lemma: slot = k2 + g2*(k1 + g1*k0) is a bijection from the grid onto [0, g0*g1*g2) for ALL grid sizes", expect_min=3)
+def _slot_lemma(U):
+    from pyvc.core import sint
+
+    def inj():
+        # uniqueness of division with remainder; applied twice (first with g = g2, then with g = g1) it gives injectivity of the slot map
+        g, r, s_, X, Y = (sint(n) for n in ("g", "r", "s", "X", "Y"))
+        hyp = [g >= 1, r >= 0, r < g, s_ >= 0, s_ < g, r + g * X == s_ + g * Y]
+        return hyp, land(r == s_, X == Y)
+    U.lemma("injective: r + g*X = s + g*Y with 0 <= r, s < g forces r = s and X = Y (apply to k2 | g2, then to k1 | g1)", inj)
+
+    def rng():
+        g0, g1, g2, k0, k1, k2 = (sint(n) for n in ("g0", "g1", "g2", "k0", "k1", "k2"))
+        m = sint("m")
+        hyp = [g0 >= 1, g1 >= 1, g2 >= 1, k0 >= 0, k0 < g0, k1 >= 0, k1 < g1, k2 >= 0, k2 < g2, m == k1 + g1 * k0]
+        # staged: m <= g1*g0 - 1, then slot <= g2*(g1*g0) - 1
+        return hyp, land(m >= 0, m <= g1 * g0 - 1)
+    U.lemma("range, step 1: k1 + g1*k0 lies in [0, g0*g1)", rng)
+
+    def rng2():
+        g2, k2, m, n01 = sint("g2"), sint("k2"), sint("m"), sint("n01")
+        hyp = [g2 >= 1, n01 >= 1, k2 >= 0, k2 < g2, m >= 0, m <= n01 - 1]
+        return hyp, land(k2 + g2 * m >= 0, k2 + g2 * m <= g2 * n01 - 1)
+    U.lemma("range, step 2: k2 + g2*m lies in [0, g2*n01) for m in [0, n01)", rng2)
